@@ -158,9 +158,8 @@ theorem suggested_no_prefix (repo : Repo) (p : Pkg) (stable : Bool) (k : Str) (h
     isPrefixKw k = false := ((mem_suggested repo p stable k).1 h).1
 /-! ## one request line -/
 
-/-- the caller's contract: `cc_arches` are known arches, and so are the arches stable somewhere in the repo -/
-def KnownHyp (repo : Repo) (o : Opts) : Prop :=
-  (∀ k ∈ o.cc, k ∈ repo.known) ∧ (∀ p ∈ repo.pkgs, ∀ k ∈ suggested repo p true, k ∈ repo.known)
+/-- the caller's contract: `cc_arches` are known arches -/
+def KnownHyp (repo : Repo) (o : Opts) : Prop := ∀ k ∈ o.cc, k ∈ repo.known
 
 /-- what the property demands of one yielded request -/
 def Good (repo : Repo) (o : Opts) (y : Nat × List Str) : Prop :=
@@ -209,16 +208,20 @@ theorem mem_onlyNewStep {o : Opts} {pkg : Pkg} {kws : List Str} {k : Str} (h : k
     exact ⟨h, fun e => absurd e h1⟩
 
 theorem mem_allarchesKw {repo : Repo} {o : Opts} {pkg : Pkg} {k : Str} (h : k ∈ allarchesKw repo o pkg) :
-    allarchesMode o = true ∧ k ∈ suggested repo pkg true := by
+    allarchesMode o = true ∧ k ∈ suggested repo pkg true ∧ k ∈ repo.known := by
   unfold allarchesKw at h
   by_cases h1 : (o.allarches && o.stable && !o.filterArch.isEmpty) = true
   · rw [if_pos h1] at h
-    exact ⟨h1, by simpa [sortKw, List.mem_mergeSort] using h⟩
+    have h' : k ∈ (suggested repo pkg true).filter (repo.known.contains ·) := by
+      simpa [sortKw, List.mem_mergeSort] using h
+    rw [List.mem_filter, List.contains_iff_mem] at h'
+    exact ⟨h1, h'.1, h'.2⟩
   · rw [if_neg h1] at h; cases h
 
 theorem mem_filterStep {repo : Repo} {o : Opts} {pkg : Pkg} {kws : List Str} {k : Str}
     (h : k ∈ filterStep repo o pkg kws) :
-    (k ∈ kws ∧ (o.filterArch ≠ [] → k ∈ o.filterArch)) ∨ (allarchesMode o = true ∧ k ∈ suggested repo pkg true) := by
+    (k ∈ kws ∧ (o.filterArch ≠ [] → k ∈ o.filterArch)) ∨
+      (allarchesMode o = true ∧ k ∈ suggested repo pkg true ∧ k ∈ repo.known) := by
   unfold filterStep at h
   by_cases h1 : o.filterArch.isEmpty = true
   · rw [if_pos h1] at h
@@ -254,11 +257,11 @@ theorem tailStep_next {repo : Repo} {o : Opts} {st st' : St} {r : Req} {idx : Na
           right
           refine ⟨(idx, filterStep repo o pkg (onlyNewStep o pkg (ccStep o kws))), rfl, pkg, hp, ?_, ?_, ?_, ?_⟩
           · intro hyp k hk'
-            rcases mem_filterStep hk' with ⟨h1, _⟩ | ⟨_, h2⟩
+            rcases mem_filterStep hk' with ⟨h1, _⟩ | ⟨_, _, h2⟩
             · rcases (mem_ccStep (mem_onlyNewStep h1).1).2 with h3 | ⟨_, h3⟩
               · exact hk k h3
-              · exact hyp.1 k h3
-            · exact hyp.2 pkg (List.mem_of_getElem? hp) k h2
+              · exact hyp k h3
+            · exact h2
           · intro hcc hmode k hk'
             rcases mem_filterStep hk' with ⟨h1, _⟩ | ⟨h2, _⟩
             · rcases (mem_ccStep (mem_onlyNewStep h1).1).1 with h3 | ⟨h3, _⟩
@@ -268,11 +271,11 @@ theorem tailStep_next {repo : Repo} {o : Opts} {st st' : St} {r : Req} {idx : Na
           · intro hf k hk'
             rcases mem_filterStep hk' with ⟨_, h1⟩ | h2
             · exact Or.inl (h1 hf)
-            · exact Or.inr h2
+            · exact Or.inr ⟨h2.1, h2.2.1⟩
           · intro hn k hk'
             rcases mem_filterStep hk' with ⟨h1, _⟩ | h2
             · exact Or.inl ((mem_onlyNewStep h1).2 hn)
-            · exact Or.inr h2
+            · exact Or.inr ⟨h2.1, h2.2.1⟩
 
 theorem bestOf_mem (ok : Pkg → Bool) (ms : List (Nat × Pkg)) (x : Nat × Pkg) (h : bestOf ok ms = some x) : x ∈ ms := by
   unfold bestOf at h
@@ -402,5 +405,28 @@ theorem runLines_append (repo : Repo) (o : Opts) (st : St) (a b : List Req) :
     cases stepLine repo o st r with
     | raise e => rfl
     | next st' => exact ih st'
+
+/-! ## what a later `^` line sees -/
+
+/-- `tailStep` never raises, and the list remembered for `^` is the cc-narrowed keyword list of the line — whatever
+`only_new`, `filter_arch` and the all-arches mode do to the request that is yielded -/
+theorem tailStep_previous (repo : Repo) (o : Opts) (st : St) (r : Req) (idx : Nat) (pkg : Pkg) (kws : List Str) :
+    ∃ st', tailStep repo o st r idx pkg kws = .next st' ∧
+      st'.previous = (if (ccStep o kws).isEmpty then st.previous else some (ccStep o kws)) := by
+  unfold tailStep
+  simp only
+  by_cases h1 : (ccStep o kws).isEmpty = true
+  · simp only [h1, Bool.and_true, if_true]
+    split
+    · exact ⟨_, rfl, rfl⟩
+    · refine ⟨_, rfl, ?_⟩
+      split <;> rfl
+  · have h1' : (ccStep o kws).isEmpty = false := by simpa using h1
+    simp only [h1', Bool.and_false, Bool.false_eq_true, if_false]
+    split
+    · exact ⟨_, rfl, rfl⟩
+    · split
+      · exact ⟨_, rfl, rfl⟩
+      · exact ⟨_, rfl, rfl⟩
 
 end Pkgcore.C40
